@@ -19,6 +19,7 @@ import (
 	"github.com/database64128/shadowsocks-go/router"
 	"github.com/database64128/shadowsocks-go/zerocopy"
 	"go.uber.org/zap"
+	"go.uber.org/zap/zapcore"
 )
 
 // ---------- harness fakes ----------
@@ -77,6 +78,33 @@ func (r *fakeResolver) LookupIPs(ctx context.Context, name string) ([]netip.Addr
 	return []netip.Addr{ip}, nil
 }
 
+// routeCore is a zap core that remembers the "route" field of the router's debug message
+// ("Matched route for TCP connection" / "... UDP session"): the name of the route that Router.match returned.
+type routeCore struct{ last *string }
+
+func (c routeCore) Enabled(zapcore.Level) bool          { return true }
+func (c routeCore) With([]zapcore.Field) zapcore.Core { return c }
+func (c routeCore) Check(e zapcore.Entry, ce *zapcore.CheckedEntry) *zapcore.CheckedEntry {
+	return ce.AddCore(e, c)
+}
+func (c routeCore) Write(e zapcore.Entry, fs []zapcore.Field) error {
+	for _, f := range fs {
+		if f.Key == "route" {
+			if st, ok := f.Interface.(fmt.Stringer); ok {
+				*c.last = st.String()
+			}
+		}
+	}
+	return nil
+}
+func (c routeCore) Sync() error { return nil }
+
+// implRouter is the real router plus the place where its logger drops the matched route's name.
+type implRouter struct {
+	r     *router.Router
+	route *string
+}
+
 // ---------- the real router ----------
 
 func (r RouteSpec) config() (rc router.RouteConfig, err error) {
@@ -125,11 +153,12 @@ type implEnv struct {
 }
 
 // buildImpl builds the real router through router.Config.Router.
-func buildImpl(c Case, poolDir string) (*router.Router, string, any) {
+func buildImpl(c Case, poolDir string) (*implRouter, string, any) {
 	var (
 		r    *router.Router
 		berr error
 	)
+	matched := new(string)
 	pan := common.Safely(func() {
 		cfg := router.Config{DefaultTCPClientName: c.DefTCP, DefaultUDPClientName: c.DefUDP}
 		for _, n := range c.DomSets {
@@ -165,7 +194,7 @@ func buildImpl(c Case, poolDir string) (*router.Router, string, any) {
 		for i, n := range c.Servers {
 			servers[n] = i
 		}
-		r, berr = cfg.Router(zap.NewNop(), resolvers, resolverMap, tcp, udp, servers)
+		r, berr = cfg.Router(zap.New(routeCore{matched}), resolvers, resolverMap, tcp, udp, servers)
 	})
 	if pan != nil {
 		return nil, "panic", pan
@@ -173,7 +202,7 @@ func buildImpl(c Case, poolDir string) (*router.Router, string, any) {
 	if berr != nil {
 		return nil, "err " + classifyBuildErr(berr), nil
 	}
-	return r, "ok", nil
+	return &implRouter{r, matched}, "ok", nil
 }
 
 var buildErrPrefixes = []struct{ prefix, class string }{
@@ -224,7 +253,10 @@ func (q ReqSpec) info() router.RequestInfo {
 }
 
 // askImpl routes one request through the real router; the answer uses the driver's vocabulary.
-func askImpl(r *router.Router, q ReqSpec) (out string, panicked any) {
+func askImpl(ir *implRouter, q ReqSpec) (out, route string, panicked any) {
+	r := ir.r
+	*ir.route = ""
+	defer func() { route = *ir.route }()
 	panicked = common.Safely(func() {
 		ctx := context.Background()
 		var err error
